@@ -16,21 +16,14 @@ E = "cuqi/experimental/mcmc/"
 L = "cuqi/sampler/"
 
 # ---------------------------------------------------------------- C14 (chain)
-m("c14_mh_drop_scale_temp_key", "C14", E + "_mh.py",
-  "_STATE_KEYS = ProposalBasedSampler._STATE_KEYS.union({'scale', '_scale_temp'})",
-  "_STATE_KEYS = ProposalBasedSampler._STATE_KEYS.union({'scale'})")
-m("c14_cwmh_drop_scale_temp_key", "C14", E + "_cwmh.py",
-  "_STATE_KEYS = ProposalBasedSampler._STATE_KEYS.union(['_scale_temp'])",
-  "_STATE_KEYS = ProposalBasedSampler._STATE_KEYS.union([])")
+# (dropping a pure *tuning* key - MH/CWMH '_scale_temp', PCN 'lambd' - from the state keys only matters when warm-up is
+#  resumed after a restore, which C14 does not quantify over: not C14 mutants)
 m("c14_ula_drop_grad_key", "C14", E + "_langevin_algorithm.py",
   "_STATE_KEYS = Sampler._STATE_KEYS.union({'current_target_logd', 'scale', 'current_target_grad'})",
   "_STATE_KEYS = Sampler._STATE_KEYS.union({'current_target_logd', 'scale'})")
 m("c14_nuts_drop_epsilon_bar_key", "C14", E + "_hmc.py",
   "_STATE_KEYS = Sampler._STATE_KEYS.union({'_epsilon', '_epsilon_bar',",
   "_STATE_KEYS = Sampler._STATE_KEYS.union({'_epsilon',")
-m("c14_pcn_drop_lambd_key", "C14", E + "_pcn.py",
-  "_STATE_KEYS = Sampler._STATE_KEYS.union({'scale', 'current_likelihood_logd', 'lambd'})",
-  "_STATE_KEYS = Sampler._STATE_KEYS.union({'scale', 'current_likelihood_logd'})")
 m("c14_set_state_skips_scale", "C14", E + "_sampler.py",
   "            if key in self._STATE_KEYS:\n                setattr(self, key, value)\n            else:\n                raise ValueError(f\"Key {key} not recognized in state dictionary",
   "            if key == 'scale':\n                continue\n            if key in self._STATE_KEYS:\n                setattr(self, key, value)\n            else:\n                raise ValueError(f\"Key {key} not recognized in state dictionary")
